@@ -1640,6 +1640,13 @@ namespace awkward {
         std::string("cannot mix missing values in slice with NumPy-style "
                     "advanced indexing") + FILENAME(__LINE__));
     }
+    for (auto item : tail.items()) {
+      if (dynamic_cast<SliceArray64*>(item.get())) {
+        throw std::invalid_argument(
+          std::string("cannot mix missing values in slice with NumPy-style "
+                      "advanced indexing") + FILENAME(__LINE__));
+      }
+    }
 
     if (dynamic_cast<SliceJagged64*>(missing.content().get())) {
       if (length() != 1) {
